@@ -93,6 +93,57 @@ def _drop_tail_returns(body):
     return body
 
 
+def _nest_early_returns(body):
+    """statements in which every `return` is in tail position: the statements that follow an `if` containing a return are
+    moved (copied) to the ends of those of its branches that can fall through"""
+    def has_return(st):
+        return any(isinstance(n, ast.Return) for n in ast.walk(st))
+
+    def append_rest(stmts, rest):
+        stmts = list(stmts)
+        if not rest:
+            return stmts
+        if stmts and isinstance(stmts[-1], (ast.Return, ast.Raise)):
+            return stmts
+        if stmts and isinstance(stmts[-1], ast.If) and has_return(stmts[-1]):
+            last = stmts[-1]
+            new = ast.copy_location(ast.If(test=last.test, body=append_rest(last.body, rest), orelse=append_rest(last.orelse, rest)), last)
+            return stmts[:-1] + [new]
+        return stmts + copy.deepcopy(rest)
+
+    body = list(body or [])
+    for k, st in enumerate(body):
+        if isinstance(st, ast.If) and has_return(st):
+            rest = _nest_early_returns(body[k + 1:])
+            new = ast.copy_location(ast.If(test=st.test, body=append_rest(_nest_early_returns(st.body), rest),
+                                           orelse=append_rest(_nest_early_returns(st.orelse), rest)), st)
+            return body[:k] + [new]
+    return body
+
+
+def _tail_returns_to(body, make):
+    """the statements of a helper whose every `return` is in tail position (the last statement, or the ends of the
+    branches of a trailing if / else chain), with each `return v` replaced by `make(v)`; None when a return sits anywhere
+    else or a path falls off the end without returning"""
+    body = list(body)
+    if not body:
+        return None
+    last = body[-1]
+    head = body[:-1]
+    if any(isinstance(n, ast.Return) for s_ in head for n in ast.walk(s_)):
+        return None
+    if isinstance(last, ast.Return):
+        if last.value is None:
+            return None
+        return head + [make(last.value)]
+    if isinstance(last, ast.If) and last.orelse:
+        b1, b2 = _tail_returns_to(last.body, make), _tail_returns_to(last.orelse, make)
+        if b1 is None or b2 is None:
+            return None
+        return head + [ast.copy_location(ast.If(test=last.test, body=b1, orelse=b2), last)]
+    return None
+
+
 def _as_statements(helper, args, is_method, taken=frozenset()):
     body = _instantiate(helper, args, is_method, taken)
     if body is None:
@@ -131,6 +182,19 @@ class _Inliner(ast.NodeTransformer):
         return None
 
     def visit_Expr(self, node):
+        # `obj.method(helper(...))` with a helper that is more than a chain of assignments: the call is hoisted into a
+        # temporary first (looking up `obj.method` has no effect), then inlined as an assignment
+        v = node.value
+        if isinstance(v, ast.Call) and len(v.args) == 1 and not v.keywords and isinstance(v.args[0], ast.Call) \
+                and isinstance(v.func, ast.Attribute) and isinstance(v.func.value, ast.Name):
+            tgt = self._target(v.args[0])
+            if tgt is not None and _as_expression(tgt[0], list(v.args[0].args), bool(tgt[1]), self.taken) is None:
+                tmp = f'value__{tgt[0].name.strip("_")}'
+                asg = ast.Assign(targets=[ast.Name(id=tmp, ctx=ast.Store())], value=v.args[0], type_comment=None)
+                out = self.visit_Assign(asg)
+                if isinstance(out, list):
+                    call = ast.Expr(value=ast.Call(func=v.func, args=[ast.Name(id=tmp, ctx=ast.Load())], keywords=[]))
+                    return out + [call]
         if isinstance(node.value, ast.Call):
             tgt = self._target(node.value)
             if tgt is not None:
@@ -138,6 +202,50 @@ class _Inliner(ast.NodeTransformer):
                 if body is not None:
                     self.count += 1
                     return [self.visit(s) if not isinstance(s, list) else s for s in body] or [ast.Pass()]
+        return self.generic_visit(node)
+
+    def visit_Return(self, node):
+        # `return helper(...)`: the helper's own returns become the caller's
+        if isinstance(node.value, ast.Call):
+            tgt = self._target(node.value)
+            if tgt is not None and _as_expression(tgt[0], list(node.value.args), bool(tgt[1]), self.taken) is None:
+                body = _instantiate(tgt[0], list(node.value.args), bool(tgt[1]), self.taken)
+                # a helper written with early returns is first brought into if / else form (N6 in reverse is not needed:
+                # `if c: return a` ; rest  ==  `if c: return a else: rest`)
+                body = _tail_returns_to(_nest_early_returns(body), lambda v: ast.Return(value=v)) if body else None
+                if body is not None:
+                    self.count += 1
+                    return [self.visit(s) for s in body]
+        return self.generic_visit(node)
+
+    def visit_Assign(self, node):
+        # `T = helper(...)` (a name or a tuple of names): the helper's returns become assignments to T
+        if isinstance(node.value, ast.Call) and len(node.targets) == 1 and \
+                (isinstance(node.targets[0], ast.Name) or (isinstance(node.targets[0], ast.Tuple) and all(isinstance(e, ast.Name) for e in node.targets[0].elts))):
+            tgt = self._target(node.value)
+            if tgt is not None and _as_expression(tgt[0], list(node.value.args), bool(tgt[1]), self.taken) is None:
+                taken = self.taken
+                body = _instantiate(tgt[0], list(node.value.args), bool(tgt[1]), taken)
+                # a helper that ends in `return a, b, c` of its own locals, assigned to `x, y, z = helper(…)`: the locals
+                # are simply called x, y, z (when those names do not occur in the helper) and the hand-over disappears
+                if body and isinstance(body[-1], ast.Return) and not any(isinstance(n, ast.Return) for s_ in body[:-1] for n in ast.walk(s_)):
+                    rv, tg = body[-1].value, node.targets[0]
+                    rnames = [e.id for e in rv.elts] if isinstance(rv, ast.Tuple) and all(isinstance(e, ast.Name) for e in rv.elts) else \
+                        ([rv.id] if isinstance(rv, ast.Name) else None)
+                    tnames = [e.id for e in tg.elts] if isinstance(tg, ast.Tuple) else [tg.id]
+                    inside = {n.id for s_ in body for n in ast.walk(s_) if isinstance(n, ast.Name)}
+                    stored = {n.id for s_ in body[:-1] for n in ast.walk(s_) if isinstance(n, ast.Name) and isinstance(n.ctx, ast.Store)}
+                    if rnames and len(rnames) == len(tnames) and len(set(rnames)) == len(rnames) and all(r_ in stored for r_ in rnames) \
+                            and not (set(tnames) & (inside - set(rnames))):
+                        ren = dict(zip(rnames, tnames))
+                        body = [_Subst({}, ren).visit(s_) for s_ in body[:-1]]
+                        self.count += 1
+                        return [self.visit(s_) for s_ in body]
+                body = _tail_returns_to(_nest_early_returns(body),
+                                        lambda v: ast.Assign(targets=[copy.deepcopy(node.targets[0])], value=v, type_comment=None)) if body else None
+                if body is not None:
+                    self.count += 1
+                    return [self.visit(s) for s in body]
         return self.generic_visit(node)
 
     def visit_Call(self, node):
@@ -251,6 +359,19 @@ def propagate_locals(fn):
         if isinstance(n, ast.AugAssign) and isinstance(n.target, ast.Name):
             stores[n.target.id] = stores.get(n.target.id, 0) + 2
     env = {}
+    # a local that merely names an attribute chain (`position = self.position`) is an alias of that object: element
+    # stores / method calls through the alias are the same through the attribute, provided the attribute itself is not
+    # re-assigned in the function
+    attr_stores = {ast.unparse(n) for n in ast.walk(fn) if isinstance(n, ast.Attribute) and isinstance(n.ctx, (ast.Store, ast.Del))}
+    name_stores = {}
+    for n in ast.walk(fn):
+        if isinstance(n, ast.Name) and isinstance(n.ctx, ast.Store):
+            name_stores[n.id] = name_stores.get(n.id, 0) + 1
+    for n in ast.walk(fn):
+        if isinstance(n, ast.Assign) and len(n.targets) == 1 and isinstance(n.targets[0], ast.Name) and isinstance(n.value, ast.Attribute) \
+                and name_stores.get(n.targets[0].id) == 1 and ast.unparse(n.value) not in attr_stores \
+                and not any(isinstance(m, ast.AugAssign) and isinstance(m.target, ast.Name) and m.target.id == n.targets[0].id for m in ast.walk(fn)):
+            stores[n.targets[0].id] = 1
 
     def strip(block):
         out = []
@@ -403,6 +524,19 @@ def _norm_block(block, fn, in_loop):
             if isinstance(st.orelse[-1], jump) and not (len(st.orelse) == 1 and isinstance(st.orelse[0], ast.If)):
                 block[i:i + 1] = [ast.If(test=_negate(st.test), body=st.orelse, orelse=[])] + list(st.body)
                 continue
+        # N9 a loop over a literal tuple of attribute reads: `for v in (a.x, a.y): BODY` -> BODY[v := a.x] ; BODY[v := a.y]
+        if isinstance(st, ast.For) and not st.orelse and isinstance(st.target, ast.Name) and isinstance(st.iter, (ast.Tuple, ast.List)) \
+                and 1 <= len(st.iter.elts) <= 4 and all(isinstance(e, ast.Attribute) and _pure(e) for e in st.iter.elts) \
+                and _stores(ast.Module(body=st.body, type_ignores=[]), st.target.id) == 0 \
+                and not _own_level(st.body, (ast.Continue, ast.Break)) \
+                and _loads(fn, st.target.id) == _loads(ast.Module(body=st.body, type_ignores=[]), st.target.id) \
+                and not any(isinstance(m, ast.Attribute) and isinstance(m.ctx, (ast.Store, ast.Del)) for b_ in st.body for m in ast.walk(b_)):
+            unrolled = []
+            for e in st.iter.elts:
+                for b_ in st.body:
+                    unrolled.append(_Subst({st.target.id: e}, {}).visit(copy.deepcopy(b_)))
+            block[i:i + 1] = unrolled
+            continue
         # N2 explicit counter: `k = 0` ; `for a in X: BODY; k += 1`  ->  `for k, a in enumerate(X): BODY`
         if isinstance(st, ast.Assign) and len(st.targets) == 1 and isinstance(st.targets[0], ast.Name) \
                 and isinstance(st.value, ast.Constant) and st.value.value == 0 and type(st.value.value) is int \
